@@ -5,6 +5,7 @@ native executable; `lake env lean --run Driver.lean` is the fall-back.
 -/
 import DL.Model.Codec
 import DL.Model.DecFiles
+import DL.Lemmas.Subst
 import DL.Gen.Particles
 import DL.Gen.Models
 import DL.Gen.Grammar
@@ -160,6 +161,9 @@ def handle (x : Sexp) : Sexp :=
   | .list [.atom "tables", o, d] => match decOpts o, decDoc d with
     | some o, some d => exceptSem ((tables Gen.db o d).map encTables)
     | _, _ => bad "tables"
+  | .list [.atom "subst", d] => match decDoc d with
+    | some d => ok (.list [bool (usedAliasesOK d), .list ((dropDefs (substDoc d)).map encStmt)])
+    | none => bad "subst"
   | .list [.atom "queries", widths, d] => match decWidths widths, decDoc d with
     | some w, some d => ok (encQueries (fun n => dget w n) d)
     | _, _ => bad "queries"
